@@ -623,6 +623,14 @@ class EvolutionSuperOperator(SuperOperator, TimeDependent, Saveable):
             
         Nt = self.time.length
 
+        # the storage is laid out by the first call (all times or only 
+        # the present one); the two layouts cannot be mixed 
+        if self.now == 0:
+            self._jit_save = save
+        elif save != self._jit_save:
+            raise Exception("The `save` argument must not change between"+
+                            " calls of calculate_next()")
+
         if (self.pdeph is not None) and (self.pdeph.dtype == "Gaussian"):
 
 
